@@ -12,6 +12,7 @@
 -/
 import Proofs.Relational
 import Bexpr.Go.WF
+import Proofs.Total
 
 namespace Bexpr.Proofs.PermRel
 open Bexpr Bexpr.Go Bexpr.Eval Bexpr.Proofs.Rel
@@ -106,12 +107,77 @@ theorem keyEqScalar_eucl {f : Nat → Nat → Nat → Bool}
     exact ⟨⟨rfl, rfl⟩, hf _ _ _ _ hxy hz⟩
   · obtain ⟨rfl, rfl⟩ := h; exact hb
 
+theorem size_pos (v : GoVal) : 1 ≤ v.size := by
+  rcases v with _|_|_|_|_|_|⟨_, _|_⟩|_|_|_|_|⟨_|_⟩|_ <;> simp only [GoVal.size] <;> omega
+
+/-- `keyEqV` agrees with the scalar equality on the old key universe -/
+theorem keyEqV_scalar (f : Nat → Nat → Nat → Bool) (a b : GoVal)
+    (h : keyEqScalar f a b = true) : keyEqV f a b = true := by
+  cases a <;> cases b <;> simp only [keyEqScalar, Bool.false_eq_true] at h <;>
+    simpa only [keyEqV] using h
+
+theorem keyEqV_eucl_aux {f : Nat → Nat → Nat → Bool}
+    (hf : ∀ w x y z, f w x y = true → f w z y = true → f w z x = true) : ∀ n (a q b : GoVal),
+    a.size ≤ n → keyEqV f a q = true → keyEqV f b q = true → keyEqV f b a = true := by
+  intro n
+  induction n with
+  | zero => intro a q b hs; have := size_pos a; omega
+  | succ n ih =>
+    have hl : ∀ xs ys zs : List GoVal, sizeList xs ≤ n → keyEqL f xs ys = true →
+        keyEqL f zs ys = true → keyEqL f zs xs = true := by
+      intro xs
+      induction xs with
+      | nil =>
+        intro ys zs _ h hb
+        cases ys with
+        | nil => cases zs with
+          | nil => rfl
+          | cons z zs => simp [keyEqL] at hb
+        | cons y ys => simp [keyEqL] at h
+      | cons x xs ihx =>
+        intro ys zs hs h hb
+        cases ys with
+        | nil => simp [keyEqL] at h
+        | cons y ys =>
+          cases zs with
+          | nil => simp [keyEqL] at hb
+          | cons z zs =>
+            simp only [keyEqL, Bool.and_eq_true] at h hb ⊢
+            simp only [sizeList] at hs
+            exact ⟨ih x y z (by omega) h.1 hb.1, ihx ys zs (by omega) h.2 hb.2⟩
+    intro a q b hs h hb
+    rcases a with _|_|_|_|_|_|⟨_, _|_⟩|_|_|_|_|⟨_|_⟩|_ <;>
+      rcases q with _|_|_|_|_|_|⟨_, _|_⟩|_|_|_|_|⟨_|_⟩|_ <;>
+      simp only [keyEqV, Bool.false_eq_true] at h <;>
+      rcases b with _|_|_|_|_|_|⟨_, _|_⟩|_|_|_|_|⟨_|_⟩|_ <;>
+      simp only [keyEqV, Bool.false_eq_true] at hb ⊢
+    all_goals first
+      | (simp only [Bool.and_eq_true, beq_iff_eq] at h hb ⊢
+         obtain ⟨rfl, rfl⟩ := h; exact hb)
+      | (simp only [Bool.and_eq_true, beq_iff_eq] at h hb ⊢
+         obtain ⟨⟨rfl, rfl⟩, rfl⟩ := h; exact hb)
+      | (simp only [Bool.and_eq_true, beq_iff_eq] at h hb ⊢
+         obtain ⟨⟨rfl, rfl⟩, hxy⟩ := h
+         obtain ⟨⟨rfl, rfl⟩, hz⟩ := hb
+         exact ⟨⟨rfl, rfl⟩, hf _ _ _ _ hxy hz⟩)
+      | (simp only [beq_iff_eq] at h hb ⊢; rw [hb, h])
+      | (simp only [Bool.and_eq_true, beq_iff_eq] at h hb ⊢
+         simp only [GoVal.size] at hs
+         exact ⟨by rw [hb.1, h.1], hl _ _ _ (by omega) h.2 hb.2⟩)
+      | (simp only [GoVal.size] at hs
+         exact ih _ _ _ (by omega) h hb)
+
+theorem keyEqV_eucl {f : Nat → Nat → Nat → Bool}
+    (hf : ∀ w x y z, f w x y = true → f w z y = true → f w z x = true) (a q b : GoVal)
+    (h : keyEqV f a q = true) (hb : keyEqV f b q = true) : keyEqV f b a = true :=
+  keyEqV_eucl_aux hf a.size a q b (Nat.le_refl _) h hb
+
 theorem keyEq_eucl {f : Nat → Nat → Nat → Bool}
     (hf : ∀ w x y z, f w x y = true → f w z y = true → f w z x = true) (a q : GoVal) :
     ∀ b, keyEq f a q = true → keyEq f b q = true → keyEq f b a = true := by
   intro b h hb
   unfold keyEq at *
-  exact keyEqScalar_eucl hf _ _ _ h hb
+  exact keyEqV_eucl hf _ _ _ h hb
 
 /-- IEEE `==` is Euclidean (NaN is related to nothing; the two zeros are related). -/
 theorem feq_eucl (w x y z : Nat) (h1 : Strconv.feq w x y = true) (h2 : Strconv.feq w z y = true) :
